@@ -135,7 +135,7 @@ def run(chk):
                     names = rng.sample(ROLE_NAMES, rng.choice([0, 0, 1, 1, 2]))
                     ch = {n: rng.choice(["a", "b", "none"]) for n in names}
                     if rng.random() < 0.08:
-                        ch[rng.choice(["created", "id", "type", "created_by_ref"])] = "x"
+                        ch[rng.choice(["created", "id", "type", "created_by_ref"])] = rng.choice(["x", "none"])
                     op = {"k": "new", "ch": ch, "now": o["modified"] + delta}
                 elif k < 0.8:
                     op = {"k": "newmod", "ch": {}, "m": o["modified"] + delta}
